@@ -165,4 +165,9 @@ def main():
     return rc
 
 if __name__ == "__main__":
-    sys.exit(main())
+    try:
+        rc = main()
+        sys.stdout.flush()
+    except BrokenPipeError:
+        rc = 1
+    sys.exit(rc)
